@@ -55,6 +55,10 @@ LIBS = {
     "shared_file.bitproto": "proto sharedx\n\nmessage P3 {\n    bool q = 1\n}\n",
     "mid.bitproto": "proto mid\n\nimport \"leaf.bitproto\"\n\nmessage Mid {\n    leaf.Leaf l = 1\n    uint3 k = 2\n}\n",
     "leaf.bitproto": "proto leaf\n\nmessage Leaf {\n    int9 v = 1\n}\n",
+    # a diamond: d1 and d2 both import common, the main file imports all three
+    "common.bitproto": "proto common\n\nconst COMMON_N = 2\n\nenum Unit : uint3 {\n    UNIT_NONE = 0\n    UNIT_M = 1\n}\n\ntype Span = int11\n\nmessage Base {\n    uint5 id = 1\n    Unit unit = 2\n    Span span = 3\n}\n",
+    "d1.bitproto": "proto d1\n\nimport \"common.bitproto\"\n\nmessage One {\n    common.Base base = 1\n    int7 a = 2\n    common.Span[common.COMMON_N] spans = 3\n}\n",
+    "d2.bitproto": "proto d2\n\nimport cm \"common.bitproto\"\n\nmessage Two {\n    cm.Base[2] bases = 1\n    cm.Unit u = 2\n}\n",
     "konst.bitproto": "proto konst\n\nconst KK = 4\n",
     "zoo.bitproto": "proto zoo\n\nmessage Zoo {\n    message Monkey {\n        bool b = 1\n    }\n    enum Food : uint2 {\n        FOOD_NUT = 0\n    }\n    Monkey m = 1\n}\n",
 }
@@ -69,6 +73,8 @@ FEATURES = [
     F("import-as", ["shared2.bitproto"], IMPORTS='import sh "shared2.bitproto"', BOX_EXTRA="    sh.Point2[2] at2 = 12\n    sh.Mode2 m2 = 29"),
     F("import-filename-differs", ["shared_file.bitproto"], ["import_file_name_differs_from_proto_name"], IMPORTS='import "shared_file.bitproto"', BOX_EXTRA="    sharedx.P3 p3 = 13"),
     F("import-two-levels", ["mid.bitproto", "leaf.bitproto"], IMPORTS='import "mid.bitproto"', BOX_EXTRA="    mid.Mid mm = 14"),
+    F("import-diamond", ["d1.bitproto", "d2.bitproto", "common.bitproto"], ["transitive_import_alias"], IMPORTS='import "d1.bitproto"\nimport "d2.bitproto"\nimport "common.bitproto"',
+      BOX_EXTRA="    d1.One one = 64\n    d2.Two two = 65\n    common.Base own = 66\n    common.Unit[2] units = 67"),
     F("import-only-constants", ["konst.bitproto"], ["import_only_constants"], IMPORTS='import "konst.bitproto"', CONSTS="const FROM_IMPORT = konst.KK + 1"),
     F("nested-in-imported", ["zoo.bitproto"], IMPORTS='import "zoo.bitproto"', BOX_EXTRA="    zoo.Zoo.Monkey mk = 15\n    zoo.Zoo.Food[2] foods = 28"),
     F("c-name-prefix", OPTIONS='option c.name_prefix = "my_"'),
